@@ -7,10 +7,12 @@ pub mod c03;
 pub mod c06;
 pub mod c07;
 pub mod c08;
+pub mod c09;
 pub mod c10;
 pub mod c11;
 pub mod c14;
 pub mod c19;
+pub mod c20;
 
 #[derive(Clone, Copy, PartialEq, Debug)]
 pub enum Tier {
@@ -31,10 +33,16 @@ pub struct PropDef {
     pub functional: bool,
     pub rule: &'static str,
     pub exhaustive_note: &'static str,
+    /// cross-case predicate over the whole run (cases, implementation answers): violations found
+    pub post: fn(&[Case], &[String]) -> Vec<(usize, String)>,
+}
+
+pub fn no_post(_: &[Case], _: &[String]) -> Vec<(usize, String)> {
+    vec![]
 }
 
 pub fn all() -> Vec<PropDef> {
-    vec![c02::def(), c03::def(), c06::def(), c07::def(), c08::def(), c10::def(), c11::def(), c14::def(), c19::def()]
+    vec![c02::def(), c03::def(), c06::def(), c07::def(), c08::def(), c09::def(), c10::def(), c11::def(), c14::def(), c19::def(), c20::def()]
 }
 
 pub fn find(id: &str) -> Option<PropDef> {
